@@ -189,4 +189,17 @@ def nip11ExpectedSource : List String := [
 def nip11ActualSource : List String :=
   [Gen.nip11If0, Gen.nip11If1, Gen.nip11If2, Gen.nip11If3, Gen.nip11If4, Gen.nip11If5, Gen.nip11If6, Gen.nip11If7]
 
+
+/-- the directions in which a middleware does nothing: the server-to-client side of every limit middleware and of
+    the receive-side unique filter, the client-to-server side of the send-side unique filter — each body is the plain
+    hand-over of the message (the model's `server_passthrough` / the unique filters' one-sided state rest on it) -/
+def passThroughActual : List String :=
+  [Gen.passEventCreatedAtServer, Gen.passMaxReqFiltersServer, Gen.passMaxLimitServer, Gen.passMaxSubIDLengthServer,
+   Gen.passMaxEventTagsServer, Gen.passMaxContentLengthServer, Gen.passCreatedAtLowerServer, Gen.passCreatedAtUpperServer,
+   Gen.passRecvUniqueServer, Gen.passRecvAllowServer, Gen.passRecvDenyServer, Gen.passSendUniqueClient]
+def passThroughExpected : List String :=
+  let a := "{ return newClosedBufCh[ServerMsg](msg), nil }"   -- with and without the explicit type argument
+  let b := "{ return newClosedBufCh(msg), nil }"
+  [a, b, b, b, b, b, a, a, a, a, a, "{ return newClosedBufCh[ClientMsg](msg), nil, nil }"]
+
 end Moc
